@@ -262,7 +262,8 @@ def prop_lines(tag, entries, rng):
 def render_v2000(m: Mol, rng: random.Random, opts=None):
     o = {"use_codes": rng.random() < 0.5, "decoy_codes": rng.random() < 0.5, "dt": rng.random() < 0.5,
          "unrelated": rng.random() < 0.5, "atom_lists": rng.random() < 0.2, "crlf": rng.random() < 0.3,
-         "zeros": rng.random() < 0.2, "short_lines": rng.random() < 0.3, "blank_coords": rng.random() < 0.15}
+         "zeros": rng.random() < 0.2, "short_lines": rng.random() < 0.3, "blank_coords": rng.random() < 0.15,
+         "repeats": rng.random() < 0.25}
     if opts:
         o.update(opts)
     n = m.n()
@@ -335,6 +336,23 @@ def render_v2000(m: Mol, rng: random.Random, opts=None):
     iso_lines = prop_lines("ISO", ie, rng)
     props += iso_lines
     rng.shuffle(props)
+    if o["repeats"] and n >= 1:
+        # an atom named more than once: the LAST entry naming it counts, a last entry 0 revokes (C08_readers_agree_repeated_entries)
+        pre, post = [], []
+        tags = [("ISO", mass, [2, 3, 12, 13, 14, 18, 250])]
+        if not use_codes:
+            tags += [("CHG", chg, [-15, -3, -1, 1, 2, 15]), ("RAD", rad, [1, 2, 3])]
+        for tag, final, vals in tags:
+            for i in rng.sample(range(n), min(n, 2)):
+                v = rng.choice(vals)
+                if i in final:
+                    pre.append(f"M  {tag}  1 {i + 1:3d} {v:3d}")  # the stating entry comes later
+                elif rng.random() < 0.5:
+                    pre.append(f"M  {tag}  2 {i + 1:3d} {v:3d} {i + 1:3d}   0")  # stated and revoked on one line
+                else:
+                    pre.append(f"M  {tag}  1 {i + 1:3d} {v:3d}")
+                    post.append(f"M  {tag}  1 {i + 1:3d}   0")
+        props = pre + props + post
     if o["unrelated"]:
         unrelated = ["M  STY  1   1 SUP", "M  SAL   1  1   1", "M  RGP  1   1   1", "M  ALS   1  2 F C   N   ",
                      "G    1   2", "M  SMT   1 label", "M  SBL   1  1   1"]
